@@ -69,6 +69,8 @@ func extractSites() int {
 	fset := token.NewFileSet()
 	var ws []writeSite
 	var ps []panicSite
+	// static call edges inside one directory (package): bare function / method name -> bare names it calls
+	calls := map[string]map[string]map[string]bool{}
 	for _, d := range anchorDirs {
 		dir := filepath.Join(repoRoot(), d)
 		ents, err := os.ReadDir(dir)
@@ -93,6 +95,24 @@ func extractSites() int {
 					continue
 				}
 				fn := fd.Name.Name
+				if calls[d] == nil {
+					calls[d] = map[string]map[string]bool{}
+				}
+				if calls[d][fd.Name.Name] == nil {
+					calls[d][fd.Name.Name] = map[string]bool{}
+				}
+				bare := fd.Name.Name
+				ast.Inspect(fd.Body, func(nd ast.Node) bool {
+					if c, ok := nd.(*ast.CallExpr); ok {
+						switch f := c.Fun.(type) {
+						case *ast.Ident:
+							calls[d][bare][f.Name] = true
+						case *ast.SelectorExpr:
+							calls[d][bare][f.Sel.Name] = true
+						}
+					}
+					return true
+				})
 				if fd.Recv != nil && len(fd.Recv.List) > 0 {
 					fn = strings.TrimPrefix(exprText(fset, fd.Recv.List[0].Type), "*") + "." + fn
 				}
@@ -186,6 +206,45 @@ func extractSites() int {
 			sep = ""
 		}
 		fmt.Fprintf(&b, "  (%s, %s, %s, %s)%s\n", leanStr(w.file), leanStr(w.fn), leanStr(w.resource), leanStr(w.verb), sep)
+	}
+	b.WriteString("]\n\n")
+	// write kinds reachable from the migration helper `Upgrade` through static calls inside its package (an over-approximation:
+	// a call `x.Name(...)` counts as a call of every function or method `Name` of the package), deduplicated and sorted
+	const upDir = "client/apis/apps/v1/helper"
+	reach := map[string]bool{"Upgrade": true}
+	work := []string{"Upgrade"}
+	for len(work) > 0 {
+		f := work[len(work)-1]
+		work = work[:len(work)-1]
+		for g := range calls[upDir][f] {
+			if _, defined := calls[upDir][g]; defined && !reach[g] {
+				reach[g] = true
+				work = append(work, g)
+			}
+		}
+	}
+	kinds := map[string]bool{}
+	for _, w := range ws {
+		bare := w.fn
+		if i := strings.LastIndex(bare, "."); i >= 0 {
+			bare = bare[i+1:]
+		}
+		if strings.HasPrefix(w.file, upDir+"/") && reach[bare] {
+			kinds[leanStr(w.resource)+", "+leanStr(w.verb)] = true
+		}
+	}
+	var ks []string
+	for k := range kinds {
+		ks = append(ks, k)
+	}
+	sort.Strings(ks)
+	b.WriteString("/-- (resource, verb) of the client write call sites in `Upgrade` and in every function of its package that it can reach by static calls; deduplicated, sorted -/\n")
+	b.WriteString("def upgradeWriteKinds : List (String × String) := [")
+	for i, k := range ks {
+		if i > 0 {
+			b.WriteString(", ")
+		}
+		b.WriteString("(" + k + ")")
 	}
 	b.WriteString("]\n\n")
 	b.WriteString("/-- every syntactically panic-capable site in the anchor packages: (file, function, kind, expression text) -/\n")
